@@ -2,6 +2,7 @@ package eng
 
 import (
 	"fmt"
+	"go/ast"
 	"go/constant"
 	"go/token"
 	"go/types"
@@ -82,6 +83,7 @@ type Interp struct {
 	typeVals map[string]Value
 	chanUndo []chanUndoRec
 	deferCall bool
+	lateCache map[*ssa.Return][]bool
 }
 
 func NewInterp(prog *ssa.Program, cfg *RunConfig) *Interp {
@@ -637,7 +639,14 @@ func (in *Interp) runBlocks(fr *frame, start *ssa.BasicBlock) Value {
 					return in.get(fr, x.Results[0])
 				}
 				t := make(Tuple, len(x.Results))
+				late := in.lateLoads(fr.fn, x)
 				for i, r := range x.Results {
+					if late != nil && late[i] {
+						// gc evaluates the calls of a return statement before it reads plain
+						// variables; go/ssa loads them first. Re-read the variable now.
+						t[i] = in.load(in.get(fr, r.(*ssa.UnOp).X))
+						continue
+					}
 					t[i] = in.get(fr, r)
 				}
 				return t
@@ -891,4 +900,83 @@ func (in *Interp) concreteInt(t *Term, what string) int64 {
 		return t.sval()
 	}
 	return int64(in.concretize(t, what))
+}
+
+// lateLoads reports, for a multi-result return statement, which results are
+// plain local variables that must be read after the calls in the same
+// statement (the order gc implements; the spec leaves it unspecified and
+// go/ssa reads them first).
+func (in *Interp) lateLoads(fn *ssa.Function, ret *ssa.Return) []bool {
+	if in.lateCache == nil {
+		in.lateCache = map[*ssa.Return][]bool{}
+	}
+	if r, ok := in.lateCache[ret]; ok {
+		return r
+	}
+	var res []bool
+	defer func() { in.lateCache[ret] = res }()
+	syn := fn.Syntax()
+	if syn == nil || !ret.Pos().IsValid() {
+		return nil
+	}
+	var stmt *ast.ReturnStmt
+	ast.Inspect(syn, func(n ast.Node) bool {
+		if stmt != nil {
+			return false
+		}
+		if rs, ok := n.(*ast.ReturnStmt); ok && rs.Return == ret.Pos() {
+			stmt = rs
+			return false
+		}
+		return true
+	})
+	if stmt == nil || len(stmt.Results) != len(ret.Results) {
+		return nil
+	}
+	hasCallAfter := func(i int) bool {
+		found := false
+		for j := i + 1; j < len(stmt.Results); j++ {
+			ast.Inspect(stmt.Results[j], func(n ast.Node) bool {
+				if _, ok := n.(*ast.CallExpr); ok {
+					found = true
+				}
+				if _, ok := n.(*ast.FuncLit); ok {
+					return false
+				}
+				return !found
+			})
+		}
+		return found
+	}
+	any := false
+	out := make([]bool, len(ret.Results))
+	for i, e := range stmt.Results {
+		for {
+			if p, ok := e.(*ast.ParenExpr); ok {
+				e = p.X
+				continue
+			}
+			break
+		}
+		if _, ok := e.(*ast.Ident); !ok {
+			continue
+		}
+		u, ok := ret.Results[i].(*ssa.UnOp)
+		if !ok || u.Op != token.MUL {
+			continue
+		}
+		if _, isAlloc := u.X.(*ssa.Alloc); !isAlloc {
+			if _, isFree := u.X.(*ssa.FreeVar); !isFree {
+				continue
+			}
+		}
+		if hasCallAfter(i) {
+			out[i] = true
+			any = true
+		}
+	}
+	if any {
+		res = out
+	}
+	return res
 }
